@@ -195,10 +195,148 @@ func run(w *core.Worker, c Case) {
 	}
 }
 
+
+// ---- bulk monitor: deep queues (growth and shrink paths of the backing storage)
+
+// BulkCase is a sequence of phases on one queue: k > 0 enqueues k fresh values
+// (1, 2, 3, ... so every value is unique), k < 0 dequeues |k| times, 0 clears.
+type BulkCase struct {
+	Linked bool  `json:"linked"`
+	Phases []int `json:"phases"`
+}
+
+func runBulk(w *core.Worker, c BulkCase) {
+	var impl q
+	var model []int
+	next := 1
+	nm := "queue"
+	if c.Linked {
+		nm = "lqueue"
+		impl = lq{queue.NewLinked(next)}
+		model = []int{next}
+		next++
+	} else {
+		impl = sq{queue.New[int]()}
+	}
+	lastRemoved, maxHeld, steps := 0, 0, 0
+	// cheap observation after every single operation: Size and Peek
+	quick := func(what string) bool {
+		if got := impl.size(); got != len(model) {
+			w.Violation(nm+".size", fmt.Sprintf("bulk: after %s (operation %d) Size()=%d, model holds %d elements", what, steps, got, len(model)))
+			return false
+		}
+		want := 0
+		if len(model) > 0 {
+			want = model[0]
+		}
+		if got := impl.peek(); got != want {
+			w.Violation(nm+".peek", fmt.Sprintf("bulk: after %s (operation %d) Peek()=%d, model front %d (%d held)", what, steps, got, want, len(model)))
+			return false
+		}
+		return true
+	}
+	// membership probes after every phase: front, back, middle, the value removed last, a value never enqueued
+	probes := func(phase int) bool {
+		cand := map[int]bool{next + 7: false}
+		if lastRemoved != 0 {
+			cand[lastRemoved] = false
+		}
+		if n := len(model); n > 0 {
+			cand[model[0]], cand[model[n-1]], cand[model[n/2]] = true, true, true
+		}
+		for v, has := range cand {
+			if got := impl.search(v); got != has {
+				w.Violation(nm+".search", fmt.Sprintf("bulk: after phase %d Search(%d)=%v, model says %v (%d held, values %d..%d)", phase, v, got, has, len(model), first(model), last(model)))
+				return false
+			}
+		}
+		return true
+	}
+	p := core.Catch(func() {
+		for pi, k := range c.Phases {
+			switch {
+			case k > 0:
+				for ; k > 0; k-- {
+					impl.enq(next)
+					model = append(model, next)
+					next++
+					steps++
+					if !quick("Enqueue") {
+						return
+					}
+				}
+			case k < 0:
+				for ; k < 0; k++ {
+					v, emptyReported := impl.deq()
+					steps++
+					if len(model) == 0 {
+						if v != 0 || !emptyReported {
+							w.Violation(nm+".deq-on-empty", fmt.Sprintf("bulk: operation %d: Dequeue on an empty queue returned %d, emptiness reported=%v", steps, v, emptyReported))
+							return
+						}
+					} else {
+						if v != model[0] {
+							w.Violation(nm+".deq-order", fmt.Sprintf("bulk: operation %d: Dequeue returned %d, model front %d (%d held)", steps, v, model[0], len(model)))
+							return
+						}
+						lastRemoved = v
+						model = model[1:]
+					}
+					if !quick("Dequeue") {
+						return
+					}
+				}
+			default:
+				impl.clear()
+				steps++
+				if len(model) > 0 {
+					lastRemoved = model[len(model)-1]
+				}
+				model = nil
+				if !quick("Clear") {
+					return
+				}
+			}
+			if len(model) > maxHeld {
+				maxHeld = len(model)
+			}
+			w.Tick()
+			if !probes(pi) {
+				return
+			}
+		}
+	})
+	if p != nil {
+		w.Violation(nm+".panic:bulk", fmt.Sprintf("bulk: operation %d panicked: %v (%d held)", steps, p, len(model)))
+		return
+	}
+	w.Count("bulk_operations", int64(steps))
+	if maxHeld >= 300 {
+		w.NonTrivial(core.HashString(core.JSON(c)))
+	}
+	if w.WantSample() {
+		w.Sample(map[string]any{"case": c, "max_held": maxHeld, "operations": steps})
+	}
+}
+
+func first(m []int) int {
+	if len(m) == 0 {
+		return 0
+	}
+	return m[0]
+}
+
+func last(m []int) int {
+	if len(m) == 0 {
+		return 0
+	}
+	return m[len(m)-1]
+}
+
 func TestProp(t *testing.T) {
 	r := core.Start(t, "C05")
 	defer r.Finish()
-	r.Rule("cases = operation sequences on queue.Queue[int] and queue.LQueue[int] (the linked one starting from its mandatory element) checked against a slice model: every Dequeue value and emptiness report, and Size/Peek/Search of every probe value after the last step (sweep) or every step (random), then a full drain plus one Dequeue on the empty queue; non-trivial = at least 2 operations; distinct by hash of the case")
+	r.Rule("cases = operation sequences on queue.Queue[int] and queue.LQueue[int] (the linked one starting from its mandatory element) checked against a slice model: every Dequeue value and emptiness report, and Size/Peek/Search of every probe value after the last step (sweep) or every step (random), then a full drain plus one Dequeue on the empty queue; non-trivial = at least 2 operations; queue-bulk: phases of hundreds to thousands of enqueues of unique values and dequeues (to empty, beyond, almost, partly; occasional Clear) with Size/Peek after every operation, every Dequeue value, membership probes after every phase; non-trivial = at least 300 elements were held at once; distinct by hash of the case")
 
 	alpha := []Op{{"enq", 1}, {"enq", 2}, {"enq", 3}, {K: "deq"}, {K: "clear"}, {K: "peek"}}
 	L := r.Pick(7, 9)
@@ -242,4 +380,44 @@ func TestProp(t *testing.T) {
 			emit(c)
 		}
 	}, run)
+
+	// deep queues: fill to hundreds/thousands of elements, drain (completely, almost, partly), refill
+	nBulk := r.Pick(48, 1500)
+	core.Monitor(r, "queue-bulk", 0, func(emit func(BulkCase)) {
+		rng := r.Rand("c05-bulk")
+		for i := 0; i < nBulk; i++ {
+			c := BulkCase{Linked: i%2 == 1}
+			top := []int{300, 700, 1500, 3000}[rng.Intn(4)]
+			if c.Linked && top > 1500 {
+				top = 1500 // the linked queue appends in linear time
+			}
+			held := 0
+			for ph := rng.Range(3, 8); ph > 0; ph-- {
+				up := rng.Range(top/2, top)
+				c.Phases = append(c.Phases, up)
+				held += up
+				var down int
+				switch rng.Intn(4) {
+				case 0:
+					down = held // exactly to empty
+				case 1:
+					down = held + rng.Intn(3) // and beyond
+				case 2:
+					down = held - rng.Range(1, 40) // almost
+				default:
+					down = rng.Range(held/4, held)
+				}
+				c.Phases = append(c.Phases, -down)
+				held -= down
+				if held < 0 {
+					held = 0
+				}
+				if rng.Chance(1, 8) {
+					c.Phases = append(c.Phases, 0)
+					held = 0
+				}
+			}
+			emit(c)
+		}
+	}, runBulk)
 }
